@@ -409,6 +409,16 @@ def main():
         print("UNDECIDED property %s has no check" % pid)
         sys.exit(2)
     pm = propmap["properties"][pid]
+    # a property that quantifies over "any array / any view" leans on the operations that establish
+    # the shape invariant (C01) and on the view constructors (C03): their contracted functions are
+    # dependencies of this property too (Verus part and trusted-text guard only; not their Kani families)
+    inherits = pm.get("inherits", [])
+    pm["own_verus_fns"] = list(pm.get("verus_fns", []))
+    for q in inherits:
+        qp = propmap["properties"][q]
+        pm["verus_fns"] = pm.get("verus_fns", []) + [f for f in qp.get("verus_fns", []) if f not in pm.get("verus_fns", [])]
+        if pid != "C12":   # (the leak clause of remove_row is C12's own obligation)
+            pm["ignore_clauses"] = pm.get("ignore_clauses", []) + [c for c in qp.get("ignore_clauses", []) if c not in pm.get("ignore_clauses", [])]
     repo_src = os.path.join(REPO, "src")
     tag = "%s_%s_%d" % (pid, tier, os.getpid())
     if pm.get("verus_fns"):
@@ -481,7 +491,8 @@ def main():
             other = [d for d in vr.diags if d["fn"] is r and d not in ds]
             if r.get("twin_of"):
                 fid = fid + "  [trait default body, verified generically over every implementor as free fn %s]" % r["free_name"]
-            frec = {"fn": fid, "repo_line": r["line"], "mode": r["mode"], "verus_name": name,
+            frec = {"fn": fid, "role": ("states the property" if match_fn(r, pm.get("own_verus_fns", [])) else "dependency: establishes the shape invariant / view the property quantifies over (inherited from %s)" % "/".join(inherits)),
+                    "repo_line": r["line"], "mode": r["mode"], "verus_name": name,
                     "ensures_clauses": len(clauses), "time_us": vr.fn_time_us.get(name, 0),
                     "back_end": "verus/z3"}
             if r.get("assumed"):
@@ -576,7 +587,7 @@ def main():
     # ---- trusted (unverified) code this property leans on must still be the reviewed text
     try:
         import trusted_text
-        for key, why, what in trusted_text.check(repo_src, pid):
+        for key, why, what in trusted_text.check(repo_src, [pid] + list(inherits)):
             unverifiable.append({"obligation": "trusted-text :: %s :: %s" % (key, what), "fn": key,
                                  "msg": "trusted code changed (%s): %s; its assumed contract is no longer backed by the reviewed text" % (why, what),
                                  "clause": "", "origin": None, "rendered": "%s: %s (%s)" % (key, what, why)})
